@@ -520,11 +520,67 @@ func TestVerifVoterChoice(t *testing.T) {
 	}
 }
 
+var vvcRuns int
+
+// vvcPreamble puts the service into round vgpRound-1 and feeds two different valid prevotes and two different valid precommits
+// of voter 1 for that round (blocks of the head's subtree); false when the tree has no two such blocks.
+func vvcPreamble(t *testing.T, e *vgpEnv, cs *vvcCase) bool {
+	var blocks []int
+	for bi := range cs.O.T {
+		b := bi + 1
+		for x := b; x != 0; x = cs.O.T[x-1] {
+			if x == cs.O.Head {
+				if b != cs.O.Head {
+					blocks = append(blocks, b)
+				}
+				break
+			}
+		}
+	}
+	if len(blocks) < 2 || cs.O.N < 1 {
+		return false
+	}
+	s := e.svc
+	s.state.round = vgpRound - 1
+	for _, stage := range []Subround{prevote, precommit} {
+		for _, b := range blocks[:2] {
+			v := Vote{Hash: e.hashes[b-1], Number: uint32(e.headers[b-1].Number)}
+			msg, err := scale.Marshal(FullVote{Stage: stage, Vote: v, Round: vgpRound - 1, SetID: vgpSetID})
+			if err != nil {
+				t.Fatalf("VERIF-INFRA preamble encode: %v", err)
+			}
+			sb, err := vgpKey(1).Sign(msg)
+			if err != nil {
+				t.Fatalf("VERIF-INFRA preamble sign: %v", err)
+			}
+			var sig [64]byte
+			copy(sig[:], sb)
+			vm := &VoteMessage{Round: vgpRound - 1, SetID: vgpSetID, Message: SignedMessage{Stage: stage, BlockHash: v.Hash, Number: v.Number,
+				Signature: sig, AuthorityID: vgpKey(1).Public().(*ed25519.PublicKey).AsBytes()}}
+			_ = vTry(func() { _, _ = s.validateVoteMessage(peer.ID("p"), vm) })
+		}
+	}
+	return true
+}
+
 func vvcRunOrder(t *testing.T, res *vResult, cs *vvcCase, ord []int, kinds, eqcls string,
 	fail func(op, field, exp, got, class string)) {
 	e := vgpNewEnv(t, cs.O.T, cs.O.N, cs.O.Head, cs.O.Change)
 	defer e.close()
 	s := e.svc
+	// every other run starts one round earlier: in round vgpRound-1 voter 1 equivocates in both subrounds, then the voter's
+	// own initiateRound opens round vgpRound.  A round's tallies are the round's: nothing of the earlier round may count.
+	vvcRuns++
+	if vvcRuns%2 == 0 && vvcPreamble(t, e, cs) {
+		if err := s.initiateRound(); err != nil {
+			fail("initiateRound", "err", "nil", err.Error(), "preamble/initiateRound-error")
+			return
+		}
+		if s.state.round != vgpRound {
+			t.Fatalf("VERIF-INFRA preamble: voter is in round %d, expected %d", s.state.round, vgpRound)
+		}
+		kinds += "+after-equivocating-round"
+	}
 	inSubtree := func(b int) bool { // b descends from (or is) head
 		for x := b; x != 0; x = cs.O.T[x-1] {
 			if x == cs.O.Head {
